@@ -219,6 +219,83 @@ def tlc_monitor(traces, timeout=1800, module='TraceMonitor'):
     return viols, events
 
 
+def trace_features(traces, limit=400000):
+    """Counts which rules were actually exercised by the recorded executions (non-vacuity of the
+    monitor's implications): read from the trace files before they are deleted."""
+    f = {}
+
+    def inc(k, n=1):
+        f[k] = f.get(k, 0) + n
+    seen = 0
+    for t in traces:
+        if not os.path.exists(t):
+            continue
+        for ln in open(t):
+            seen += 1
+            if seen > limit:
+                f['truncated_after_events'] = limit
+                return f
+            try:
+                e = json.loads(ln)
+            except ValueError:
+                continue
+            ev = e.get('ev')
+            inc('ev:' + str(ev))
+            if ev == 'iter':
+                inc('iter:kind=' + str(e.get('k')))
+                for x in e.get('ext', []):
+                    if x.get('add'):
+                        inc('ext:added')
+                        inc('ext:far' if x.get('far') == 1 else 'ext:near' if x.get('far') == 0 else 'ext:band')
+                        if len(x.get('cov', [])) > 1:
+                            inc('ext:multi-query-coverage')
+                    else:
+                        inc('ext:not-added(orc=%s)' % x.get('orc'))
+                st = e.get('star', {})
+                if st.get('on'):
+                    inc('star:iterations')
+                    if st.get('rew'):
+                        inc('star:iterations-with-rewire')
+                        inc('star:rewired-nodes', len(st['rew']))
+                    if e.get('ext') and e['ext'][0].get('near') != st.get('par'):
+                        inc('star:parent-not-nearest')
+                    if any(o == 1 for o in st.get('orc', [])):
+                        inc('star:blocked-candidate-present')
+                if len(e.get('ext', [])) == 2 and all(x.get('add') for x in e['ext']):
+                    inc('rrtc:both-trees-extended')
+            elif ev == 'ret':
+                inc('ret:' + str(e.get('kind')))
+                if e.get('kind') == 'ok':
+                    inc('ret:ok-path-states', len(e.get('path', [])))
+            elif ev == 'psample':
+                inc('prm:sample-valid' if e.get('valid') else 'prm:sample-invalid')
+                for lk in e.get('links', []):
+                    if lk.get('linked'):
+                        inc('prm:links')
+                    elif lk.get('inr') == 1:
+                        inc('prm:in-radius-not-linked(orc=%s)' % lk.get('orc'))
+            elif ev == 'query':
+                inc('prm:queries')
+            elif ev == 'stream' and e.get('inst') == 2:
+                inc('stream:compared-calls')
+                inc('stream:compared-draws', len(e.get('draws', [])))
+            elif ev == 'pair':
+                inc('pair:rrt-vs-rrtstar')
+                if e.get('ok_star') and e.get('ok_rrt'):
+                    inc('pair:both-ok')
+                    if e.get('len_star', 0) < e.get('len_rrt', 0):
+                        inc('pair:rrtstar-strictly-shorter')
+            elif ev == 'sp':
+                inc('sp:%s/%s' % (e.get('sp'), e.get('op')))
+    return f
+
+
+def merge_features(a, b):
+    for k, v in b.items():
+        a[k] = a.get(k, 0) + v
+    return a
+
+
 # ------------------------------------------------------------------------------- lattice engines
 
 def q(**kw):
@@ -379,6 +456,7 @@ def lattice_engine(planner, tier, seed, api=False):
         res['transitions'] += st['generated']
         res['traces'] += info['runs']
         res['events'] += events
+        merge_features(res.setdefault('features', {}), trace_features(traces, limit=150000))
         for t in traces:
             os.remove(t)
     # Witness configurations: each must be violated; the input history of TLC's counterexample is
@@ -426,6 +504,7 @@ def lattice_engine(planner, tier, seed, api=False):
                                'witnesses_replayed': [h['witness'] for h in whist]})
         res['traces'] += len(whist)
         res['events'] += events
+        merge_features(res.setdefault('features', {}), trace_features([trace]))
         os.remove(trace)
     return res
 
@@ -467,6 +546,7 @@ def real_engine(tier, seed):
     res['configs'].append({'name': 'real-spaces', 'runs': info['runs'], 'events': events, 'runs_per_space': spaces,
                            'distinct_final_snapshots': info['runs'], 'states': 0, 'transitions': 0})
     res['samples'] = [{'run': r, 'scenario': index[r]} for r in sorted(index)[:3]]
+    res['features'] = trace_features(traces)
     for t in traces:
         os.remove(t)
     return res
@@ -644,6 +724,7 @@ def py_engine(tier, seed):
                            'prm_soundness_runs': len([e for e in events if e['ev'] == 'pyprm']), 'events': nev,
                            'distinct_final_snapshots': nmirror + nfault, 'states': nev + 1, 'transitions': nev})
     res['samples'] = [runmap[k] for k in sorted(runmap)[:3]]
+    res['features'] = trace_features([trace])
     return res
 
 
@@ -850,6 +931,7 @@ def write_evidence(pid, tier, seed, spec, results, counts, nviol, wall, known_hi
         'engines': [{'engine': r['engine'], 'configs': r.get('configs', []), 'witnesses': r.get('witnesses', []),
                      'wall_s': r.get('wall_s'), 'cached_result_for_same_tree': r.get('engine_cached', False)} for r in results],
         'labels_of_this_property_raised': counts,
+        'rules_exercised_by_recorded_executions': {r['engine']: r.get('features', {}) for r in results if r.get('features')},
         'inductive_obligations_discharged_by_apalache': [c.get('obligations') for r in results if r['engine'] == 'ind:star' for c in r['configs']],
         'programs': sum(r.get('programs', 0) for r in results),
         'disagreements_checked': sum(r.get('disagreements_checked', 0) for r in results),
